@@ -37,7 +37,7 @@ CHECKS.update({
    text="Every program of the E-lr corpora of both grammars (+1-deviations of trivia and lexemes, specials) that both reference LR drivers accept on the tokens the real scanner returns, minus a token-level superset of uniform-variable-syntax and yield-as-operator patterns: the 5.6 and 7.4 trees must be identical in kinds, nesting, values, tokens, free-floating tokens and positions, and both error lists equal.",
    note="Trusted: the exclusion list for constructs whose meaning differs. Known findings: PHP 5 goto label span and `list()` empty item (both asserted by the suite).", ref="§C10"),
  "C13": dict(cat="exploration", tech="explicit-state history exploration: every sequence of {print, dump, dump+tokens+positions, traverse, resolve} up to a depth on every corpus tree, states = deep reflection snapshots",
-   text="For every rule-level and 2-path corpus tree of both grammars (with and without trivia, trees with errors included) and seven resolver/interpolation programs: every operation sequence of length <= 3 (thorough 5) is replayed on a fresh tree; after each step the output must equal the fresh-tree output of that operation and the deep snapshot (all fields, slice len/cap, pointer graph, bytes) must be unchanged - exactly one reachable state per tree.",
+   text="For every rule-level and 2-path corpus tree of both grammars (with and without trivia, trees with errors included) and ten resolver/interpolation programs: every operation sequence of length <= 3 (thorough 5) is replayed on a fresh tree; after each step the output must equal the fresh-tree output of that operation and the deep snapshot (all fields, slice len/cap, pointer graph, bytes) must be unchanged - exactly one reachable state per tree.",
    note="Trusted: reflection snapshot covers exported fields of everything reachable from the root.", ref="§C13"),
  "C17": dict(cat="exploration", tech="exhaustive exploration of LR-corpus programs (nullable combinations) x whitespace layouts x lexeme alternatives through format+print+re-parse",
    text="Every valid corpus program of both grammars (rules, 2-paths, all present/absent combinations of optional children; thorough 3-paths) in four whitespace layouts and with every alternative lexeme: format+print must not panic, must re-parse without errors to the same structural fingerprint, be idempotent, and be identical across layouts.",
